@@ -1478,9 +1478,18 @@ class Interp:
         for p_, d in zip(params[len(params) - len(defaults):], defaults):
             if p_ in given_:
                 continue
-            sub = Interp(self.a, om, {}, isinstance_fn=self.isinstance_fn, call_models=self.call_models, world=self.world,
-                         inline_pkg=self.inline_pkg, depth=self.depth + 1)
-            env[p_] = sub.ev(d)
+            # a default is evaluated once, when the def statement runs: every later call of the function in this world (= process)
+            # gets the same object (a list default that is appended to keeps growing)
+            memo_ = self.world.__dict__.setdefault('default_values', {})
+            if closure or id(d) not in memo_:
+                sub = Interp(self.a, om, {}, isinstance_fn=self.isinstance_fn, call_models=self.call_models, world=self.world,
+                             inline_pkg=self.inline_pkg, depth=self.depth + 1)
+                val_ = sub.ev(d)
+                if closure:
+                    env[p_] = val_
+                    continue
+                memo_[id(d)] = val_
+            env[p_] = memo_[id(d)]
         for p_, a in zip(params, args):
             env[p_] = a
         if fnode.args.vararg is not None:
@@ -1490,8 +1499,15 @@ class Interp:
             kwargs = {k: v for k, v in kwargs.items() if k in params}
         for ko, kd in zip(fnode.args.kwonlyargs, fnode.args.kw_defaults):
             if ko.arg not in kwargs and kd is not None:
-                sub0 = Interp(self.a, om, {}, isinstance_fn=self.isinstance_fn, call_models=self.call_models, world=self.world)
-                env[ko.arg] = sub0.ev(kd)
+                memo_ = self.world.__dict__.setdefault('default_values', {})
+                if closure or id(kd) not in memo_:
+                    sub0 = Interp(self.a, om, {}, isinstance_fn=self.isinstance_fn, call_models=self.call_models, world=self.world)
+                    val_ = sub0.ev(kd)
+                    if closure:
+                        env[ko.arg] = val_
+                        continue
+                    memo_[id(kd)] = val_
+                env[ko.arg] = memo_[id(kd)]
         env.update(kwargs)
         gen_cache = self.a.__dict__.setdefault('_is_gen_cache', {})
         is_gen = gen_cache.get(id(fnode))
